@@ -255,21 +255,27 @@ Definition copy_row (indices : list nat) (start stop : nat) (src : list nat) : r
   if (stop <? start) || (length indices <? stop) then Panic P_COPY
   else Ok (firstn start indices ++ firstn (stop - start) src ++ skipn stop indices).
 
-(* `indptr.par_iter().zip(&indptr[1..]).zip(indice_locks).for_each(..)`: one copy per row,
-   into pairwise-disjoint ranges (performed here in row order) *)
-Fixpoint copy_rows (indices : list nat) (start : nat) (stops : list nat) (rows : list (list nat))
-  : res (list nat) :=
+(* `indptr.par_iter().zip(&indptr[1..]).zip(indice_locks).for_each(..)`: one copy task
+   (start, end, neighbors) per row, into pairwise-disjoint ranges *)
+Definition copy_task := (nat * nat * list nat)%type.
+Fixpoint copy_tasks (start : nat) (stops : list nat) (rows : list (list nat)) : list copy_task :=
   match stops, rows with
-  | stop :: t, r :: rs => bind (copy_row indices start stop r) (fun i => copy_rows i stop t rs)
-  | _, _ => Ok indices
+  | stop :: t, r :: rs => (start, stop, r) :: copy_tasks stop t rs
+  | _, _ => []
+  end.
+Fixpoint run_copies (indices : list nat) (tasks : list copy_task) : res (list nat) :=
+  match tasks with
+  | [] => Ok indices
+  | (start, stop, r) :: t => bind (copy_row indices start stop r) (fun i => run_copies i t)
   end.
 
-Definition assemble (rows : list (list nat)) : res csr :=
+(* [sched]: the order in which rayon performs the copies *)
+Definition assemble_sched (sched : list copy_task -> list copy_task) (rows : list (list nat)) : res csr :=
   let stops := prefix_sums 0 (map (@length nat) rows) in
   let indptr := 0 :: stops in
   let size := length indptr - 1 in
   let total := last indptr 0 in                       (* indptr[indptr.len() - 1] *)
-  bind (copy_rows (repeat 0 total) 0 stops rows) (fun indices =>
+  bind (run_copies (repeat 0 total) (sched (copy_tasks 0 stops rows))) (fun indices =>
   let data := repeat ONE_BITS (length indices) in
   if csmat_valid size indptr indices data
   then Ok (mkCsr size size indptr indices data)
@@ -288,14 +294,16 @@ Definition dual_rows_sched (sched : list (nat * list nat) -> list (nat * list na
   bind (all_writes dim n2e cs) (fun ws =>
   apply_writes (repeat [] el_count) (sched ws))))).
 
-Definition dual_sched (sched : list (nat * list nat) -> list (nat * list nat)) (m : mesh) : res csr :=
+Definition dual_sched (sched : list (nat * list nat) -> list (nat * list nat))
+           (sched2 : list copy_task -> list copy_task) (m : mesh) : res csr :=
   match max_dimension (m_topology m) with
   | None => Ok empty_csr
-  | Some dim => bind (dual_rows_sched sched dim m) assemble
+  | Some dim => bind (dual_rows_sched sched dim m) (assemble_sched sched2)
   end.
 
 Definition dual_rows := dual_rows_sched (fun ws => ws).
-Definition dual := dual_sched (fun ws => ws).
+Definition assemble := assemble_sched (fun ts => ts).
+Definition dual := dual_sched (fun ws => ws) (fun ts => ts).
 
 (* ---- barycentres: number of points returned ---- *)
 Definition barycentre_count (m : mesh) : res nat :=
